@@ -837,16 +837,16 @@ where
     let off = rng.below(5) as usize;
     raw_ops(cv, out, rng, &pts[..1], &raws, 1);
     let sel: Vec<Vec<u64>> = raws.iter().enumerate().filter(|(j, s)| (j + off) % 5 == 0 || s.len() > cv.n + 1).map(|(_, s)| s.clone()).collect();
-    for (j, s) in sel.iter().enumerate() {
-        let i = 1 + j % (np - 1);
-        raw_ops(cv, out, rng, &pts[i..i + 1], &[vec![], vec![], vec![], s.clone()][3 - j % 4..4 - j % 4 + 0].to_vec().as_slice(), 4);
+    for i in 1..np {
+        let si: Vec<Vec<u64>> = sel.iter().enumerate().filter(|(j, _)| 1 + j % (np - 1) == i).map(|(_, s)| s.clone()).collect();
+        raw_ops(cv, out, rng, &pts[i..i + 1], &si, 1);
     }
     let ks: Vec<A::ScalarField> = field_scalars(rng, 2 * scale, false);
     scalar_ops(cv, out, rng, &pts[..1], &ks[..6], 3);
     let ksel: Vec<A::ScalarField> = ks.iter().enumerate().filter(|(j, _)| (j + off) % 5 == 0).map(|(_, k)| *k).collect();
-    for (j, k) in ksel.iter().enumerate() {
-        let i = 1 + j % (np - 1);
-        scalar_ops(cv, out, rng, &pts[i..i + 1], &[*k, *k, *k][..1 + j % 3], 1);
+    for i in 1..np {
+        let ki: Vec<A::ScalarField> = ksel.iter().enumerate().filter(|(j, _)| 1 + j % (np - 1) == i).map(|(_, k)| *k).collect();
+        scalar_ops(cv, out, rng, &pts[i..i + 1], &ki, 1);
     }
     bits_ops(cv, out, rng, &pts[..1], 2);
     bits_ops(cv, out, rng, &pts[1..2], 0);
@@ -863,8 +863,8 @@ where
     let rb = cv.rbits;
     let k1 = vec![vec![ks[ks.len() - 2]]];
     batch_ops(cv, out, rng, &pts[1..2], &[vec![A::ScalarField::zero()]], &[1], &[0], false);
-    batch_ops(cv, out, rng, &pts[1..2], &k1, &[1000], &[rb], false);
-    batch_ops(cv, out, rng, &pts[2..3], &k1, &[[1usize, 2, 31, 32, 33][off]], &[[rb - 1, rb + 1, 64 * cv.n + 5, 17, rb][off]], false);
+    let (ns, ss) = [(1000usize, rb), (1, rb - 1), (33, 64 * cv.n + 5), (32, 17), (2, rb + 1)][off];
+    batch_ops(cv, out, rng, &pts[1 + off % 2..2 + off % 2], &k1, &[ns], &[ss], false);
 }
 /// shipped / large curve: structured scalars × a few points.  Each line costs two reference scalar
 /// multiplications in the driver (~10 ms each at 256 bits), so the quick tier rotates the operations over the
@@ -873,6 +873,9 @@ fn large<A: AffineRepr>(cv: &Cv<A>, out: &mut Out, rng: &mut Rng, pts: &[A], tho
 where
     A::Group: ScalarMul<MulBase = A>,
 {
+    if !thorough {
+        return large_quick(cv, out, rng, pts, scale);
+    }
     let raws = raw_scalars(cv.n, &cv.r, rng, if thorough { 20 * scale } else { 4 * scale });
     let np = pts.len();
     // pts[0] = identity (cheap for the driver), pts[1] = generator, the others rotate
@@ -1056,12 +1059,12 @@ fn main() {
         large(&cv, &mut out, &mut rng, &pts, th, 1);
         let ks: Vec<<C as CurveConfig>::ScalarField> = field_scalars(&mut rng, if th { 3000 } else { 300 }, true);
         glv_ops::<C>(&cv, &mut out, &mut rng, &[], &ks, true);
-        let ks2: Vec<_> = ks.iter().step_by(if th { 6 } else { 24 }).copied().collect();
+        let ks2: Vec<_> = ks.iter().skip(rng.below(6) as usize).step_by(if th { 6 } else { 75 }).copied().collect();
         let np = pts.len();
         glv_ops::<C>(&cv, &mut out, &mut rng, &pts[1..2], &ks2, false);
-        let ks3: Vec<_> = ks.iter().step_by(if th { 30 } else { 97 }).copied().collect();
-        glv_ops::<C>(&cv, &mut out, &mut rng, &pts[..1], &ks3[..3], false);
-        glv_ops::<C>(&cv, &mut out, &mut rng, &pts[2..np], &ks3, false);
+        let ks3: Vec<_> = ks.iter().skip(rng.below(30) as usize).step_by(if th { 30 } else { 120 }).copied().collect();
+        glv_ops::<C>(&cv, &mut out, &mut rng, &pts[..1], &ks3[..ks3.len().min(3)], false);
+        glv_ops::<C>(&cv, &mut out, &mut rng, &pts[2..if th { np } else { np.min(4) }], &ks3, false);
     }
     if want("secp256k1") {
         type C = ark_test_curves::secp256k1::Config;
@@ -1074,14 +1077,15 @@ fn main() {
         let pts = sw_some_points::<SecpGlv>(&mut rng, if th { 3 } else { 1 });
         let ks: Vec<SecpFr> = field_scalars(&mut rng, if th { 2000 } else { 200 }, true);
         glv_ops::<SecpGlv>(&cv, &mut out, &mut rng, &[], &ks, true);
-        let ks2: Vec<_> = ks.iter().step_by(if th { 8 } else { 32 }).copied().collect();
-        glv_ops::<SecpGlv>(&cv, &mut out, &mut rng, &pts[1..3], &ks2, false);
+        let ks2: Vec<_> = ks.iter().skip(rng.below(8) as usize).step_by(if th { 8 } else { 48 }).copied().collect();
+        glv_ops::<SecpGlv>(&cv, &mut out, &mut rng, &pts[1..if th { 3 } else { 2 }], &ks2, false);
         let raws = raw_scalars(4, &cv.r, &mut rng, 4);
+        let raws: Vec<Vec<u64>> = if th { raws } else { let o = rng.below(6) as usize; raws.into_iter().skip(o).step_by(6).collect() };
         raw_ops(&cv, &mut out, &mut rng, &pts[1..2], &raws, if th { 4 } else { 1 });
         // determinant −r: k1 = k keeps the top bit for k ≥ 2^255 and the ladder skips a doubling mid-way
         let cvb = sw_cv::<SecpGlvBad>("secpglvbad", glv_tok::<SecpGlvBad>());
         let ptsb = sw_some_points::<SecpGlvBad>(&mut rng, 1);
-        let ks3: Vec<_> = ks.iter().rev().step_by(if th { 10 } else { 40 }).copied().collect();
+        let ks3: Vec<_> = ks.iter().rev().step_by(if th { 10 } else { 70 }).copied().collect();
         glv_ops::<SecpGlvBad>(&cvb, &mut out, &mut rng, &ptsb[1..2], &ks3, false);
     }
     if want("mnt4_753") {
@@ -1090,12 +1094,12 @@ fn main() {
         let pts = sw_some_points::<C>(&mut rng, 1);
         // 12-limb scalars: a thin slice only (each line costs ~1500 field inversions in the driver)
         let raws = raw_scalars(cv.n, &cv.r, &mut rng, 2);
-        let sel: Vec<Vec<u64>> = raws.iter().step_by(if th { 2 } else { 12 }).cloned().collect();
+        let sel: Vec<Vec<u64>> = raws.iter().skip(if th { 0 } else { rng.below(30) as usize }).step_by(if th { 2 } else { 90 }).cloned().collect();
         raw_ops(&cv, &mut out, &mut rng, &pts[1..2], &sel, if th { 4 } else { 1 });
         let ks: Vec<<C as CurveConfig>::ScalarField> = field_scalars(&mut rng, 2, th);
-        let sel: Vec<_> = ks.iter().step_by(if th { 9 } else { 40 }).copied().collect();
+        let sel: Vec<_> = ks.iter().skip(if th { 0 } else { rng.below(40) as usize }).step_by(if th { 9 } else { 80 }).copied().collect();
         scalar_ops(&cv, &mut out, &mut rng, &pts[1..2], &sel, if th { 3 } else { 1 });
-        wnaf_ops(&cv, &mut out, &mut rng, &pts[1..2], &sel[..sel.len().min(if th { 4 } else { 2 })], if th { &[2, 4, 7] } else { &[4] }, 2);
+        wnaf_ops(&cv, &mut out, &mut rng, &pts[1..2], &sel[..sel.len().min(if th { 4 } else { 1 })], if th { &[2, 4, 7] } else { &[4] }, 2);
         if th {
             batch_ops(&cv, &mut out, &mut rng, &pts[1..2], &[sel[..sel.len().min(3)].to_vec()], &[1, 1000], &[cv.rbits], false);
         }
